@@ -14,7 +14,6 @@ import (
 
 	proto "github.com/kubewharf/kubebrain-client/api/v2rpc"
 
-
 	"kbverif/lib"
 )
 
@@ -172,10 +171,13 @@ func genReads(r *lib.Rand, h hist, ops []lib.RSOp, cur uint64, quick bool) []rea
 		if i == 0 {
 			a, b = []byte("/r/"), []byte("/r0")
 		}
-		if bytes.Compare(a, b) > 0 && !r.Chance(1, 6) {
+		if bytes.Compare(a, b) >= 0 && !r.Chance(1, 12) {
 			a, b = b, a
+			if bytes.Equal(a, b) {
+				b = lib.RSBoundPool(nil)[1] // "/r0"
+			}
 		}
-		if r.Chance(1, 25) {
+		if r.Chance(1, 60) {
 			b = nil
 		}
 		if h.nul && i > 0 {
